@@ -395,6 +395,16 @@ class Prims:
             if z3.is_arith(a_) and z3.is_arith(b_):
                 a_, b_ = coerce(a_, b_)
             return {ast.Eq: lambda: a_ == b_, ast.NotEq: lambda: a_ != b_, ast.Lt: lambda: a_ < b_, ast.LtE: lambda: a_ <= b_, ast.Gt: lambda: a_ > b_, ast.GtE: lambda: a_ >= b_}[type(op)]()
+        if isinstance(a, (tuple, list)) and isinstance(b, (tuple, list)) and isinstance(op, (ast.Eq, ast.NotEq)) and any(is_sym(x) for x in list(a) + list(b)):
+            # tuples of symbolic terms (shapes): equal iff same length and equal element by element
+            if len(a) != len(b):
+                r = False
+            else:
+                parts = [self.compare(ex, st, ast.Eq(), x, y, node) for x, y in zip(a, b)]
+                r = z3.And([zbool(p_) for p_ in parts]) if parts else True
+            if isinstance(op, ast.NotEq):
+                r = z3.Not(r) if is_sym(r) else (not r)
+            return r
         import operator as o
 
         return {ast.Eq: o.eq, ast.NotEq: o.ne, ast.Lt: o.lt, ast.LtE: o.le, ast.Gt: o.gt, ast.GtE: o.ge}[type(op)](a, b)
